@@ -36,6 +36,18 @@ Proof. vm_compute. repeat split; congruence. Qed.
 Lemma jp_row_start_consistent : gen_jp_transaction_row_start = gen_jp_first_row + 1.
 Proof. reflexivity. Qed.
 
+(** the row arithmetic fits the template: the three rows around the first transaction row are blank, the totals line
+    (two rows below the last transaction) carries the template's label in column A, and so do the two rows of the
+    opening / closing balance section (8 and 9 rows below), under a header row that has labels in columns E and I *)
+Definition has_label (cells : list (Z * Z)) (r c : Z) : bool := existsb (fun rc => (fst rc =? r) && (snd rc =? c)) cells.
+Lemma jp_asset_layout_fits_template :
+  forallb (fun rc => negb ((gen_jp_first_row - 1 <=? fst rc) && (fst rc <=? gen_jp_first_row + 1))) gen_jp_tmpl_asset_cells = true /\
+  has_label gen_jp_tmpl_asset_cells (gen_jp_first_row + 2) 0 = true /\
+  has_label gen_jp_tmpl_asset_cells (gen_jp_first_row + 8) 0 = true /\ has_label gen_jp_tmpl_asset_cells (gen_jp_first_row + 9) 0 = true /\
+  has_label gen_jp_tmpl_asset_cells (gen_jp_first_row + 7) 4 = true /\ has_label gen_jp_tmpl_asset_cells (gen_jp_first_row + 7) 8 = true /\
+  has_label gen_jp_tmpl_asset_cells (gen_jp_first_row + 16) 8 = true.
+Proof. vm_compute. repeat split; reflexivity. Qed.
+
 Lemma forallb_In {A} (f : A -> bool) l x : forallb f l = true -> In x l -> f x = true.
 Proof. intros H Hin. rewrite forallb_forall in H. auto. Qed.
 
